@@ -1,0 +1,98 @@
+//go:build verif
+
+package tbtc
+
+import (
+	"context"
+	"crypto/ecdsa"
+
+	"github.com/keep-network/keep-core/pkg/chain"
+	"github.com/keep-network/keep-core/pkg/net"
+	"github.com/keep-network/keep-core/pkg/protocol/group"
+)
+
+// Verification hook (build tag verif): re-exports existing identifiers only.
+
+const VerifC24CoordinationMessageReceiveBuffer = coordinationMessageReceiveBuffer
+
+// VerifC24Fault is an exported copy of coordinationFault.
+type VerifC24Fault struct {
+	Culprit   chain.Address
+	FaultType CoordinationFaultType
+}
+
+// VerifC24Executor wraps a coordinationExecutor holding only the fields read
+// by executeFollowerRoutine.
+type VerifC24Executor struct {
+	ce *coordinationExecutor
+}
+
+func VerifC24NewExecutor(
+	c Chain,
+	walletPublicKey *ecdsa.PublicKey,
+	signingGroupOperators []chain.Address,
+	operatorAddress chain.Address,
+	broadcastChannel net.BroadcastChannel,
+	membershipValidator *group.MembershipValidator,
+) *VerifC24Executor {
+	w := wallet{
+		publicKey:             walletPublicKey,
+		signingGroupOperators: signingGroupOperators,
+	}
+	return &VerifC24Executor{
+		ce: &coordinationExecutor{
+			chain:               c,
+			coordinatedWallet:   w,
+			membersIndexes:      w.membersByOperator(operatorAddress),
+			operatorAddress:     operatorAddress,
+			broadcastChannel:    broadcastChannel,
+			membershipValidator: membershipValidator,
+		},
+	}
+}
+
+func (v *VerifC24Executor) WalletPublicKeyHash() [20]byte {
+	return v.ce.walletPublicKeyHash()
+}
+
+func (v *VerifC24Executor) MembersIndexes() []group.MemberIndex {
+	return v.ce.membersIndexes
+}
+
+func (v *VerifC24Executor) ExecuteFollowerRoutine(
+	ctx context.Context,
+	leader chain.Address,
+	coordinationBlock uint64,
+	actionsAllowed []WalletActionType,
+) (CoordinationProposal, []VerifC24Fault, error) {
+	proposal, faults, err := v.ce.executeFollowerRoutine(
+		ctx,
+		leader,
+		coordinationBlock,
+		actionsAllowed,
+	)
+	var out []VerifC24Fault
+	for _, f := range faults {
+		out = append(out, VerifC24Fault{Culprit: f.culprit, FaultType: f.faultType})
+	}
+	return proposal, out, err
+}
+
+// VerifC24NewCoordinationMessage builds the unexported coordinationMessage.
+func VerifC24NewCoordinationMessage(
+	senderID group.MemberIndex,
+	coordinationBlock uint64,
+	walletPublicKeyHash [20]byte,
+	proposal CoordinationProposal,
+) net.TaggedMarshaler {
+	return &coordinationMessage{
+		senderID:            senderID,
+		coordinationBlock:   coordinationBlock,
+		walletPublicKeyHash: walletPublicKeyHash,
+		proposal:            proposal,
+	}
+}
+
+func VerifC24CoordinationMessageUnmarshaler() net.TaggedUnmarshaler {
+	return &coordinationMessage{}
+}
